@@ -263,6 +263,26 @@ def run(ctx):
   # "receives the bound value": the callee must get the value as bound, not an object an earlier call could have edited
   isolate(ctx, w, 'C01.bound-value')
   signature_agreement(ctx, 'C01.precedence')
+  pn = ctx.func('config._get_supplied_positional_parameter_names')
+  rv = [r.value for r in walk_local(pn.node) if isinstance(r, ast.Return) and r.value is not None]
+  okpn = len(rv) == 1 and isinstance(rv[0], ast.Subscript) and isinstance(rv[0].slice, ast.Slice) and u(rv[0].value).endswith('.args') \
+      and rv[0].slice.lower is None and u(rv[0].slice.upper) == 'len(%s)' % pn.params[1]
+  ctx.check(okpn, 'C01.precedence', construct(pn), 'names of positionally supplied values are the first len(args) *positional* parameters (surplus values go to *args)',
+            'positionally supplied names are computed as `%s`: surplus *args values are taken for keyword-only parameters, whose bindings are then dropped'
+            % [u(x) for x in rv], pn.loc(), instance='positional-names')
+  # identity of the REQUIRED marker (a caller value that merely compares equal must reach the function unchanged)
+  n_cmp, bad_cmp = 0, []
+  for n_ in walk_local(f.node):
+    if isinstance(n_, ast.Compare):
+      ops_ = [n_.left] + list(n_.comparators)
+      for op_, (a_, b_) in zip(n_.ops, zip(ops_, ops_[1:])):
+        if u(a_) == 'REQUIRED' or u(b_) == 'REQUIRED':
+          n_cmp += 1
+          if not isinstance(op_, (ast.Is, ast.IsNot)):
+            bad_cmp.append(f.loc(n_))
+  ctx.check(not bad_cmp and n_cmp >= 3, 'C01.precedence', con, 'caller values are tested against the REQUIRED marker by identity only',
+            'a caller value is compared with the marker by equality at %s: a value with a permissive __eq__ (mock.ANY, symbolic objects) is replaced by the binding' % bad_cmp,
+            bad_cmp[0] if bad_cmp else f.loc(), instance='marker-identity')
 
   # ---- C01.scope-entry
   scope_entry(ctx, 'C01.scope-entry')
